@@ -276,7 +276,7 @@ func BuildSelect(query *Query, slct *sqlparser.Select) error {
 	if err != nil {
 		return err
 	}
-	query.havingDefinition = slct.Having
+	query.havingDefinition = havingWithAliases(query, slct)
 	query.selectDefinition = *slct.SelectExprs
 	query.whereDefinition = slct.Where
 	query.distinct = slct.Distinct
@@ -341,6 +341,46 @@ func BuildSelect(query *Query, slct *sqlparser.Select) error {
 		}
 	}
 	return nil
+}
+
+// havingWithAliases is the HAVING clause with the aliases of aggregates and of
+// columns replaced by what they name: HAVING c > 1 means HAVING COUNT(*) > 1
+// for COUNT(*) AS c (a grouping column of that name keeps its meaning). The
+// parsed statement may be shared: the clause is rewritten on a copy
+func havingWithAliases(query *Query, slct *sqlparser.Select) *sqlparser.Where {
+	if slct.Having == nil || len(query.groupDefinition) == 0 {
+		return slct.Having
+	}
+	aggregates := make(map[string]sqlparser.Expr)
+	for _, item := range slct.SelectExprs.Exprs {
+		aliased, ok := item.(*sqlparser.AliasedExpr)
+		if !ok || aliased.As.IsEmpty() || query.groupDefinition[aliased.As.String()] {
+			continue
+		}
+		switch aliased.Expr.(type) {
+		case sqlparser.AggrFunc, *sqlparser.ColName:
+			aggregates[aliased.As.String()] = aliased.Expr
+		}
+	}
+	if len(aggregates) == 0 {
+		return slct.Having
+	}
+	rewritten := sqlparser.Rewrite(sqlparser.CloneExpr(slct.Having.Expr), func(cursor *sqlparser.Cursor) bool {
+		column, ok := cursor.Node().(*sqlparser.ColName)
+		if !ok || !column.Qualifier.IsEmpty() {
+			return true
+		}
+		if aggregate, ok := aggregates[column.Name.String()]; ok {
+			cursor.Replace(sqlparser.CloneExpr(aggregate))
+			return false
+		}
+		return true
+	}, nil)
+	expr, ok := rewritten.(sqlparser.Expr)
+	if !ok {
+		return slct.Having
+	}
+	return &sqlparser.Where{Type: slct.Having.Type, Expr: expr}
 }
 
 func BuildUnion(query *Query, expr *sqlparser.Union) error {
